@@ -249,6 +249,10 @@ pub fn child(req: &str) -> ! {
     let w = PathBuf::from(std::env::var("VERIF_W").expect("VERIF_W"));
     let _ = Path::new(".");
     let bp = TestBuildpack { req, w };
+    // C12: when the fault injector is preloaded, start counting file-system calls from here (the phase under test)
+    if bp.req["arm"].as_str() == Some("child") {
+        let _ = std::fs::remove_file("/__verif_arm__");
+    }
     libcnb::libcnb_runtime(&bp);
     std::process::exit(97)
 }
